@@ -31,14 +31,17 @@ def miller(tw, w, d, l, mv, t_f, p_inhg):
     return s * (mv / 2800) ** (1 / 3) * ((t_f + 460) / (59 + 460)) * (29.92 / p_inhg)
 
 
-def _shot(look, atmo, tw, bullet, mv=2750.0):
+def _shot(look, atmo, tw, bullet, mv=2750.0, extra=None):
     import py_ballisticcalc as pb
     from mc.world import make_atmo
     U = pb.Unit
     w, d, l = BULLETS[bullet]
     dm = pb.DragModel(0.223, pb.TableG7, U.Grain(w), U.Inch(d), U.Inch(l))
     at = pb.Vacuum(U.Foot(5000), U.Celsius(-10)) if atmo == 'vac5k' else make_atmo(ATMOS[atmo])
-    return pb.Shot(pb.Weapon(U.Inch(2), U.Inch(tw), U.Degree(2)), pb.Ammo(dm, U.FPS(mv)), look_angle=U.Degree(look), atmo=at)
+    ex = extra or {}
+    winds = [pb.Wind(U.MPH(12), U.Degree(70), U.Yard(200)), pb.Wind(U.MPH(6), U.Degree(250))] if ex.get('wind') else None
+    return pb.Shot(pb.Weapon(U.Inch(2), U.Inch(tw), U.Degree(2)), pb.Ammo(dm, U.FPS(mv)), look_angle=U.Degree(look), cant_angle=U.Degree(ex.get('cant', 0.0)),
+                   relative_angle=U.MOA(ex.get('rel', 0.0)), atmo=at, winds=winds)
 
 
 def _rows(calc, shot, mode):
@@ -63,10 +66,11 @@ def _rows(calc, shot, mode):
 def rows(cell):
     import py_ballisticcalc as pb
     U = pb.Unit
-    look, atmo, tw, bullet, mode = cell
+    look, atmo, tw, bullet, mode = cell[:5]
+    ex = cell[5] if len(cell) > 5 else None
     calc = make_calc()
-    shot = _shot(look, atmo, tw, bullet)
-    shot0 = _shot(look, atmo, 0.0, bullet)
+    shot = _shot(look, atmo, tw, bullet, extra=ex)
+    shot0 = _shot(look, atmo, 0.0, bullet, extra=ex)
     R = _rows(calc, shot, mode)
     R0 = _rows(calc, shot0, mode)
     if R is None or R0 is None:
@@ -234,5 +238,7 @@ def plan(tier):
     variants = [['icao', 2750.0, 'full', 12.0], ['hot', 2750.0, 'full', 12.0], ['icao5k', 2200.0, 'full', 12.0], ['icao', 2750.0, 'nolength', 12.0],
                 ['icao', 2750.0, 'noweight', 12.0], ['icao', 2750.0, 'full', -8.0], ['icao', 2750.0, 'full', 0.0], ['vac5k', 2750.0, 'full', 12.0]]
     ru = [[a, b] for a in variants for b in variants]
+    cells += [[lk, a, tw, 'full', mode, ex] for lk in (0.0, 20.0) for a in ('icao', 'hot') for tw in (12.0, -8.0) for mode in ('plain', 'extra', 'incomplete')
+              for ex in ({'wind': True}, {'cant': 30.0, 'rel': 10.0}, {'wind': True, 'cant': -20.0})]
     pw = [[m, t, tw, a] for m in (0.02, -0.015, 0.0) for t in (35.0, -10.0, 15.0) for tw in (12.0, -8.0) for a in ('icao', 'hot')]
     return [('rows', cells), ('reuse', ru), ('powder', pw)]
